@@ -1,11 +1,15 @@
-(* C34  The packet engine is free of data races and deadlocks - the part in reach: deadlock by lock order.
-   Property theorems only.  Data-race freedom is a property of the Go memory model over all executions of the real
-   program; there is no executable Gallina model of that, and nothing here claims it.
+(* C34  The packet engine is free of data races and deadlocks - the parts in reach: deadlock by lock order, and the
+   WRITE DISCIPLINE of the source (writes to the documented lock-guarded containers hold their guard in write mode;
+   Relay objects are never written after publication).
+   Property theorems only.  Data-race freedom in general is a property of the Go memory model over all executions of
+   the real program; there is no executable Gallina model of that, and nothing here claims it: reads, other fields,
+   atomics, channel hand-offs and slices shared between routines are not covered.
    gen/LockGraph.v is regenerated on every run by the translator go/lockgraph from the source of /repo: the lock
    classes (struct type + mutex field) and the edges "b may be acquired while a is held". *)
 From Coq Require Import List NArith Bool.
 Import ListNotations.
 From NV Require Import gen.LockGraph model.LockOrder proofs.LockOrder_proofs.
+From NV Require Import gen.WriteSites model.WriteDiscipline proofs.WriteDiscipline_proofs.
 Open Scope N_scope.
 
 (* Lock-order inversions that ARE in the code (reported as findings, listed in KNOWN_FINDINGS.json): for each, the one
@@ -41,4 +45,44 @@ Print Assumptions C34_ordered_no_deadlock.
 Example C34_nonvacuous :
   acyclicb [(1, 2); (2, 3); (1, 3)] = true /\ acyclicb [(1, 2); (2, 1)] = false /\ acyclicb [(4, 4)] = false /\
   (0 < length lock_edges)%nat.
+Proof. vm_compute. repeat split; try reflexivity. apply PeanoNat.Nat.lt_0_succ || (unfold lt; repeat constructor). Qed.
+
+(* ---- write discipline ------------------------------------------------------------------------------------------- *)
+(* gen/WriteSites.v is regenerated on every run by go/lockgraph/guards.go: every store into a Relay struct with its
+   freshness, every write to a map / slice field of a mutex-carrying struct with the lock classes must-held there.
+   Every site of the current source obeys the hand-written rule of model/WriteDiscipline.v (reflection on the finite,
+   regenerated table: this is the tie to the code): a Relay is only written while fresh (before it is published), and a
+   documented guarded container (guard_map) is only written with its guard held in write mode on every path from every
+   caller, or while its owning struct is fresh. *)
+Theorem C34_write_discipline : forallb site_ok sites = true.
+Proof. exact write_discipline_holds. Qed.
+Print Assumptions C34_write_discipline.
+
+(* the table is not empty where it matters: every documented immutable type has stores and every documented container
+   has a write that is judged by the held lock *)
+Theorem C34_write_sites_cover_rules : covered = true.
+Proof. exact write_sites_cover_rules. Qed.
+Print Assumptions C34_write_sites_cover_rules.
+
+(* What the guard rule buys, at every instant of every execution: if write-mode locks are mutually exclusive and every
+   write in progress holds the guard of its location, two writes in progress on one location are by the same thread.
+   Reads are NOT judged (a read outside the lock, or under RLock against a writer, is out of scope). *)
+Theorem C34_guarded_writes_exclusive : forall (guard : N -> N) (st : list access),
+  exclusive st -> (forall a, In a st -> write_guarded guard a) ->
+  forall a b, In a st -> In b st -> a_write a = true -> a_write b = true -> a_loc a = a_loc b -> a_thread a = a_thread b.
+Proof. exact guarded_writes_exclusive. Qed.
+Print Assumptions C34_guarded_writes_exclusive.
+
+(* What the immutability rule buys, in every execution: if no write to an object follows its publication, every
+   access after the publication is a read, so no two of them conflict. *)
+Theorem C34_immutable_published_no_write : forall tr, fresh_writes tr ->
+  forall pre o post t w, tr = pre ++ Publish o :: post -> In (Acc t o w) post -> w = false.
+Proof. exact immutable_published_no_write. Qed.
+Print Assumptions C34_immutable_published_no_write.
+
+Example C34_write_nonvacuous :
+  site_ok (mkSite 0 KImm typ_Relay false [cls_RelayState_RWMutex] []) = false /\
+  site_ok (mkSite 0 KGuard fld_HostMap_Hosts false [] [cls_HostMap_RWMutex]) = false /\
+  site_ok (mkSite 0 KGuard fld_HostMap_Hosts false [cls_HostMap_RWMutex] []) = true /\
+  (0 < length (filter site_pinned sites))%nat.
 Proof. vm_compute. repeat split; try reflexivity. apply PeanoNat.Nat.lt_0_succ || (unfold lt; repeat constructor). Qed.
